@@ -1038,7 +1038,10 @@ class Blackbody(Spectrum):
         # sample_fn will be planck_radiance if the Blackbody was created from its
         # standard constructor. If instead, Blackbody was created from the vegamag
         # classmethod, sample_fn will be planck_exitance
-        return self.sample_fn(wave, self.temp, waveunit, valueunit=self.valueunit)
+        # (a method of this class is named, not stored bound: a bound method kept in
+        # the instance would go on evaluating the object a shallow copy was made from)
+        sample_fn = getattr(self, self.sample_fn) if isinstance(self.sample_fn, str) else self.sample_fn
+        return sample_fn(wave, self.temp, waveunit, valueunit=self.valueunit)
 
     def sample_vegamag(self, wave, temp, waveunit, valueunit):
         # Get Vega zero point data for requested band
@@ -1143,7 +1146,7 @@ class Blackbody(Spectrum):
         # Populate this object with additional attributes
         self.mag = mag
         self.band = band
-        self.sample_fn = self.sample_vegamag
+        self.sample_fn = 'sample_vegamag'
 
         return self
 
